@@ -92,7 +92,10 @@ func applyTIFFPredictor2(data []byte, params Params) ([]byte, error) {
 		return nil, fmt.Errorf("TIFF Predictor 2 only supports 8 bits per component, got %d", bpc)
 	}
 
-	rowSize := columns * colors
+	rowSize, err := predictorRowSize(columns, colors)
+	if err != nil {
+		return nil, err
+	}
 	if len(data)%rowSize != 0 {
 		return nil, fmt.Errorf("data size %d is not a multiple of row size %d", len(data), rowSize)
 	}
@@ -129,7 +132,11 @@ func applyPNGPredictor(data []byte, predictor int, params Params) ([]byte, error
 
 	// PNG predictors work on rows with a predictor byte at the start of each row
 	bytesPerPixel := colors
-	rowSize := columns*colors + 1 // +1 for predictor byte
+	rowBytes, err := predictorRowSize(columns, colors)
+	if err != nil {
+		return nil, err
+	}
+	rowSize := rowBytes + 1 // +1 for predictor byte
 
 	if len(data)%rowSize != 0 {
 		return nil, fmt.Errorf("data size %d is not a multiple of row size %d", len(data), rowSize)
@@ -209,6 +216,22 @@ func decodePNGRow(rowData []byte, predictor byte, bytesPerPixel int, rowNum int,
 	}
 
 	return result, nil
+}
+
+// maxPredictorRowSize bounds Columns*Colors; real images are far below it, and the
+// bound keeps the product from overflowing.
+const maxPredictorRowSize = 1 << 30
+
+// predictorRowSize validates the Columns and Colors decode parameters, which come
+// straight from the file, and returns the number of data bytes per row.
+func predictorRowSize(columns, colors int) (int, error) {
+	if columns < 1 || colors < 1 {
+		return 0, fmt.Errorf("invalid predictor parameters: Columns %d, Colors %d", columns, colors)
+	}
+	if columns > maxPredictorRowSize/colors {
+		return 0, fmt.Errorf("predictor row too large: Columns %d, Colors %d", columns, colors)
+	}
+	return columns * colors, nil
 }
 
 // paethPredictor implements the Paeth predictor algorithm from the PNG specification.
